@@ -39,6 +39,10 @@ static inline void PerturbedFree(void *p) {
 }
 void *operator new(size_t n) { return PerturbedAlloc(n); }
 void *operator new[](size_t n) { return PerturbedAlloc(n); }
+void *operator new(size_t n, const std::nothrow_t &) noexcept { try { return PerturbedAlloc(n); } catch (...) { return nullptr; } }
+void *operator new[](size_t n, const std::nothrow_t &) noexcept { try { return PerturbedAlloc(n); } catch (...) { return nullptr; } }
+void operator delete(void *p, const std::nothrow_t &) noexcept { PerturbedFree(p); }
+void operator delete[](void *p, const std::nothrow_t &) noexcept { PerturbedFree(p); }
 void operator delete(void *p) noexcept { PerturbedFree(p); }
 void operator delete[](void *p) noexcept { PerturbedFree(p); }
 void operator delete(void *p, size_t) noexcept { PerturbedFree(p); }
